@@ -212,7 +212,7 @@ fn random_cfg(rng: &mut SmallRng, mode: &str) -> Cfg {
         accept_cap: rng.random_range(1..=2),
         // datagram bursts need room: up to five datagrams can wait at the receiver in the datagram modes
         dg_cap: if mode == "dgram" || mode == "all" { pick(rng, &[1usize, 1, 2, 2, 3, 4, 5]) } else { rng.random_range(1..=2) },
-        bind_cap: if mode == "bind" || mode == "all" { rng.random_range(0..=2) } else { 0 },
+        bind_cap: if mode == "bind" || mode == "all" { rng.random_range(0..=2) } else if mode == "fault" { pick(rng, &[0usize, 0, 1, 2]) } else { 0 },
         retries: rng.random_range(1..=3),
         // keepalive: values as given to the options API (a timeout below the interval is clamped by the builder)
         ka_i: if mode == "ka" { rng.random_range(1..=3) } else { 0 },
@@ -342,7 +342,7 @@ fn random_trace(mode: &str, rng: &mut SmallRng, steps: usize) -> Sim {
     let closes = matches!(mode, "close" | "all" | "fault" | "open" | "bridge");
     let opens_both = matches!(mode, "open" | "close" | "all" | "bind" | "fault");
     let dgrams = matches!(mode, "dgram" | "all" | "fault");
-    let binds = matches!(mode, "bind" | "all");
+    let binds = matches!(mode, "bind" | "all" | "fault");
     let faults = mode == "fault";
     let dropmux = matches!(mode, "fault" | "all");
     let bridges = mode == "bridge";
@@ -376,8 +376,12 @@ fn random_trace(mode: &str, rng: &mut SmallRng, steps: usize) -> Sim {
             nfaults += 1;
             let i = if nfaults > 1 && rng.random_range(0..3) != 0 { last_fault_ep } else { rng.random_range(0..2) };
             last_fault_ep = i;
-            let kind = pick(rng, &["cutsrc", "cutsrcs", "endsrc", "cutsink", "softcut", "dropmux", "close"]);
+            let kind = pick(rng, &["cutsrc", "cutsrcs", "endsrc", "cutsink", "softcut", "dropmux", "close", "junk"]);
             match kind {
+                "junk" => {
+                    // a message that is not a frame arrives behind what is already in flight; what the peer sends later follows it
+                    sim.exec(&json!({"op": "inject", "e": en(i), "m": {"op": "junk"}}));
+                }
                 "dropmux" => {
                     sim.exec(&json!({"op": "drop_mux", "e": en(i)}));
                 }
